@@ -31,7 +31,7 @@ MSG_SRC = "/repo/core/src/message"
 
 TIERS = {
     # p_*: sampling of frames into the verdict file (all frames are judged on the real code)
-    "quick": dict(cfg="MessageCodec_MC.cfg", randoms=20, random_frames=200_000, p_acc=0.08, p_rej=0.015, p_aimed=0.6,
+    "quick": dict(cfg="MessageCodec_MC.cfg", randoms=20, random_frames=200_000, p_acc=0.06, p_rej=0.012, p_aimed=0.5,
                   chunk=250, tlc_timeout=600),
     "thorough": dict(cfg="MessageCodec_MC_thorough.cfg", randoms=300, random_frames=6_000_000, p_acc=0.35, p_rej=0.04,
                      p_aimed=1.0, chunk=400, tlc_timeout=1500),
